@@ -6,6 +6,8 @@
  * bytes, fully symbolic (zeros inside blocks included).  Oracle: reference step
  * function written from the framing rules.  Covers the 254/255, 222/223 (0xDE/
  * 0xDF), 0xE0/0xE1 boundaries for every position of the cut.
+ * -DPREVIEW: a preview call (sourcelen 0) is issued before the regular call; the
+ * oracle is unchanged (preview + regular call == regular call).
  */
 #include "verif.h"
 #include <string.h>
@@ -85,6 +87,12 @@ void harness(void)
 	dec.curr = curr;
 	dec.data.pos = p0; dec.data.len = L; dec.data.msg = -1;
 	src.iov_base = buf + G; src.iov_len = curr + k;
+#ifdef PREVIEW
+	/* a preview call (no source parts: what mpt_queue_peek() issues) may decode ahead inside the
+	 * current block but must not change what the following regular call delivers */
+	(void) DEC(&dec, &src, 0);
+	V_ASSERT(dec.data.msg < 0, "a preview call does not complete a message");
+#endif
 	r = DEC(&dec, &src, 1);
 
 	for (i = 0; i < G; i++) V_ASSERT(buf[i] == 0xC3 && buf[G + BUFSZ + i] == 0xC3, "memory around the buffer untouched");
